@@ -46,6 +46,7 @@ type Engine struct {
 	Verbose  bool
 
 	models     map[string]modelFn
+	symModels  map[string]modelFn // SMT models of string functions for genuinely symbolic arguments
 	noopPrefix []string
 	initStores map[*ssa.Global]bool
 
@@ -89,7 +90,7 @@ func Load(cfg Config) (*Engine, error) {
 	prog.Build()
 	e := &Engine{Prog: prog, Pkgs: pkgs, RunInit: map[string]bool{}, KnownIDs: map[string]bool{},
 		Solver: "z3", TimeoutMs: 60000, Workers: 16,
-		models: map[string]modelFn{}, execFns: map[*ssa.Function]int{}, modelFns: map[string]int{},
+		models: map[string]modelFn{}, symModels: map[string]modelFn{}, execFns: map[*ssa.Function]int{}, modelFns: map[string]int{},
 		initStores: map[*ssa.Global]bool{}}
 	registerModels(e)
 	// globals with an initialiser
